@@ -993,6 +993,8 @@ func init() {
 }
 
 func runC11(c *Ctx) {
+	driverRule(c, "C11.R10", []string{"clusterState).UpdateLiveness", "clusterState).RemoveExpired"})
+	facadeRule(c, "C11.R10", []facadeSpec{{gsPkg, "clusterState.RemoveExpired", "clusterState).RemoveExpiredAt", "time.Now", false}})
 	p := c.P
 	g := newGossipAnchors(p)
 	if !g.ok {
@@ -1234,7 +1236,13 @@ func c11R6(c *Ctx, g *gossipAnchors) {
 			f1 := anyFact(facts, func(f Fact) bool { _, ok := loadedField(f.V, left); return ok && !f.T })
 			f2 := anyFact(facts, func(f Fact) bool { _, ok := loadedField(f.V, unreach); return ok && !f.T })
 			c.check(f1 && f2, "C11.R6", fnName(fn)+"/leave-target", call.Pos(), "leave is sent only to nodes that are neither left nor unreachable", "leave can be sent to a left or unreachable node; facts "+factStrings(facts))
+			idF := p.Field(gsPkg, "NodeMetadata", "ID")
+			notSelf := anyFact(facts, func(f Fact) bool {
+				return cmpFact(f, token.NEQ, func(v ssa.Value) bool { _, ok := loadedField(v, idF); return ok }, func(v ssa.Value) bool { _, ok := loadedField(v, idF); return ok })
+			})
+			c.check(notSelf, "C11.R6", fnName(fn)+"/leave-target-not-self", call.Pos(), "leave is sent only to other nodes", "the departure is announced to the node itself instead of (or as well as) its peers; facts "+factStrings(facts))
 		}
+		loopsComplete(c, "C11.R6", []*ssa.Function{fn}, 0)
 	}
 }
 
@@ -1284,7 +1292,9 @@ func loopsComplete(c *Ctx, rule string, fns []*ssa.Function, floor int) {
 				bad+": the remaining nodes/entries are silently skipped")
 		}
 	}
-	c.floor(rule, floor)
+	if floor > 0 {
+		c.floor(rule, floor)
+	}
 	_ = n
 }
 
